@@ -62,6 +62,7 @@ def J(engine, config, args=None, env=None, label=None, fills=None):
     return out
 
 
+TSAN_ENV = {"TSAN_OPTIONS": "halt_on_error=1:exitcode=66:report_signal_unsafe=0"}
 FILLS_Q = [0x06, 0x0c]
 FILLS_T = [0xbe, 0x06, 0x07, 0x0c]
 
@@ -130,6 +131,11 @@ CHECKS = {
                 jobs=lambda t: J("serenum", "prod-hsw", []) + J("serenum", "asan-hsw", []) + J("domexplore", "prod-hsw", ["--only", "M_pool_nestedmap"], label="prod-hsw/domexplore-states") + (J("serenum", "prod-wsm", []) if t == "thorough" else []),
                 budget=dict(quick=150, thorough=3000),
                 rule="documents parsed from every accepted text of the families, API-built strings of every byte value/length/position, boundary integers and doubles, and non-finite doubles at every position, each serialised into 17 write-buffer start states (fresh, reused, reused after larger/smaller output, WriteBuffer(c) for 12 small capacities; exact-size reallocs under ASan): Serialize succeeds, all states give identical bytes, the output is accepted by the independent reference recogniser and denotes the same value with the same number kinds, Parse(output) is == the original, re-serialising gives identical bytes, ToString is NUL-terminated; non-finite -> kSerErrorInfinity and Dump()==''. Every state reached by the mutation-API BFS is round-tripped too (second job)."),
+    "C17": dict(level="model_checking", engine="sched",
+                jobs=lambda t: J("sched", "sched-prod", []) + J("sched", "sched", ["--only", "SC_alloc_2threads_x2ops", "--bound", "1"], label="sched-asan/2threads-bound1") +
+                J("tsanrun", "tsan", [], env=TSAN_ENV) + J("tsanrun", "tsan-locked", [], env=TSAN_ENV),
+                budget=dict(quick=200, thorough=3000),
+                rule="preemption-bounded exhaustive schedule exploration of the real code under a serialising scheduler (hooked lock/shared-access points + operation boundaries); see per-family rules. States/transitions report the number of complete schedules executed."),
 }
 
 
